@@ -100,6 +100,10 @@ def split_object_path(_input):
     for c in _input:
         if c in _START_SEP:
             if in_literal:
+                if escape_next_quote:
+                    # It was not an escape character after all!
+                    s += '\\'
+                    escape_next_quote = False
                 s += c
             else:
                 if c == '.':
